@@ -85,8 +85,9 @@ type schedStep struct {
 }
 
 type concCase struct {
-	S []schedStep `json:"s"`
-	N int         `json:"n"`
+	S    []schedStep `json:"s"`
+	N    int         `json:"n"`
+	Free bool        `json:"free"` // no gates: free-running goroutines (race detector runs)
 }
 
 func goid() int {
@@ -111,6 +112,9 @@ func handleIsoConc(raw json.RawMessage) interface{} {
 	actionOf := map[string]string{"load-enter": "load", "execute-enter": "read"}
 	doneOf := map[string]string{"loaded": "load", "source-read": "read"}
 	exec.VerifGate = func(z *exec.Interpreter, point string) {
+		if c.Free {
+			return
+		}
 		mu.Lock()
 		defer mu.Unlock()
 		rq, ok := reqOf[goid()]
